@@ -297,6 +297,11 @@ class Wsdl11(XmlSchema):
 
             if method.is_callback:
                 operation = SubElement(cb_port_type, WSDL11("operation"))
+            elif method.port_type is not None:
+                # the operation belongs to the port type its method names
+                operation = SubElement(
+                            self._get_or_create_port_type(method.port_type),
+                                                            WSDL11("operation"))
             else:
                 operation = SubElement(port_type, WSDL11("operation"))
 
